@@ -66,6 +66,7 @@ func (s *orderingServer) NodeStream(srv ordering.Gorums_NodeStreamServer) error 
 	if s.opts.connectCallback != nil {
 		s.opts.connectCallback(ctx)
 	}
+	vEmit("SrvAccept", 0, 0, "conn", ctx)
 
 	go func() {
 		for {
@@ -74,6 +75,7 @@ func (s *orderingServer) NodeStream(srv ordering.Gorums_NodeStreamServer) error 
 				return
 			case msg := <-finished:
 				err := srv.SendMsg(msg)
+				vEmit("SrvSend", 0, msg.Metadata.MessageID, "conn", ctx, "ok", err == nil)
 				if err != nil {
 					return
 				}
@@ -89,15 +91,20 @@ func (s *orderingServer) NodeStream(srv ordering.Gorums_NodeStreamServer) error 
 		req := newMessage(requestType)
 		err := srv.RecvMsg(req)
 		if err != nil {
+			vEmit("SrvConnEnd", 0, 0, "conn", ctx)
 			return err
 		}
+		vEmit("SrvRecv", 0, req.Metadata.MessageID, "conn", ctx, "method", req.Metadata.Method)
 		if handler, ok := s.handlers[req.Metadata.Method]; ok {
+			vEmit("SrvStart", 0, req.Metadata.MessageID, "conn", ctx)
 			// We start the handler in a new goroutine in order to allow multiple handlers to run concurrently.
 			// However, to preserve request ordering, the handler must unlock the shared mutex when it has either
 			// finished, or when it is safe to start processing the next request.
 			go handler(ServerCtx{Context: ctx, once: new(sync.Once), mut: &mut}, req, finished)
 			// Wait until the handler releases the mutex.
+			vGate("SrvLoopLockWait", 0, req.Metadata.MessageID, "conn", ctx)
 			mut.Lock()
+			vEmit("SrvLoopLocked", 0, req.Metadata.MessageID, "conn", ctx)
 		}
 	}
 }
